@@ -472,7 +472,7 @@ def _flatten(ex, alts):
 # ------------------------------------------------------------------ misc std
 
 def m_misc(ex, st, callee, A):
-    if re.search(r'(^|::)panicking::(panic\w*|assert_failed\w*|unreachable_display)$', callee) or callee.endswith('::panic_fmt') \
+    if re.search(r'(^|::)panicking::(panic\w*|assert_failed\w*|unreachable_display)$', callee) or callee.endswith('::panic_fmt') or callee in ('panic_fmt', 'panic', 'panic_display', 'unreachable_display', 'assert_failed') \
             or 'begin_panic' in callee or callee.endswith('::panic_display') or re.search(r'rt::panic_\w+$', callee) \
             or callee.endswith('::panic_cold_explicit') or callee.endswith('option::expect_failed') or callee.endswith('result::unwrap_failed'):
         msg = ' '.join(repr(a) for a in A)[:200]
@@ -489,6 +489,10 @@ def m_misc(ex, st, callee, A):
     m = re.match(r'^<(.*) as From<(.*)>>::from$', callee)
     if m and (m.group(1).strip() == m.group(2).strip()):
         return A[0]
+    if m and base_type(m.group(1)) in ex.from_wrappers and ex.resolve(callee, A) is None:
+        # derive-generated (thiserror #[from]) conversion: the target wraps the source value unchanged
+        ex.stats['stubbed'].add(f'From-wrapper:{base_type(m.group(1))}<-{base_type(m.group(2))}')
+        return Agg('struct', m.group(1).strip(), None, [A[0]], ('from:' + base_type(m.group(2)),))
     if re.search(r' as Clone>::clone$', callee) or re.search(r'clone::impls::<impl Clone for \w+>::clone$', callee):
         v = A[0]
         if isinstance(v, Ref):
